@@ -28,6 +28,10 @@ CHECKS = {
          "Routers with 0..16 live routes and traffic in flight are stopped by shutdown() from 1..4 threads racing add_route from others, or by dropping the proxy, followed by further sends and add_route calls; oracle: no callback after shutdown returned, every callback registered before the call dropped by then, all handlers dropped and the router thread gone at quiescence, late routes never invoked, no panic, no deadlock. Sampling, not proof.", "5/C17"),
  "C14": ("exploration", "deterministic simulation: seeded programs of failing/nested/OS-rejected sends on one live thread with observer threads; quiescence oracle + nonce probes of every attachment",
          "Programs of sends whose Serialize fails after k items, sends from inside Serialize impls (depth <=3, failing or not, propagated or not), sends to a dead channel and a receive inside Deserialize, followed by plain traffic; the sending thread stays alive; oracle: channels of endpoints embedded in failed values disconnect (observers not blocked at quiescence, probes to embedded receivers fail), every delivered message has exactly its own attachments at their positions (nonce probes). Sampling, not proof.", "5/C14"),
+ "C15": ("exploration", "deterministic simulation: complete enumeration of attachment count 0..300 x mixture x data part on real threads under seeded schedules; hang detection at quiescence, MSG_CTRUNC observed at the seam, nonce probes",
+         "All 301 x 4 x 5 input shapes of the property are run (each with a probing receiver and a follow-up message): refused => channel still usable, accepted => every attachment present and correctly assigned, never a hang, panic or descriptor loss in transit. The input space is enumerated completely; schedules are sampled (the simulator contributes hang detection, seam observation and isolation).", "5/C15"),
+ "C16": ("exploration", "deterministic simulation: seeded raw payloads + raw attachment lists, in-flight corruption injected at the seam, one sacrificial process per run; oracle on panics/aborts, foreign endpoints and released descriptors (ledger + watcher threads)",
+         "Receivers of 12 types are fed valid, foreign-type, bad-index, duplicate-index, random, truncated and in-flight-corrupted messages with 0..8 attachments, directly or through a receiver set, decoded or dropped undecoded; oracle: result is Err or a value, no panic/abort, no endpoint that was not attached, every attached descriptor released afterwards. Sampling, not proof.", "5/C16"),
 }
 PENDING = "check not built yet (work in progress in this session; will be claimed once its simulation scenario exists)"
 
